@@ -71,6 +71,9 @@ def objects(platform):
         ("Acl(grouped)", acl(True)),
         ("Acl(no address groups)", acl(False, False)),
         ("Acl(entries before the first heading)", acl(False, True, True)),
+        # an entry that lives inside a group of an ACL with a software version (its rendering depends on the version's name table)
+        ("Ace(in a group of a versioned ACL)", lambda: cisco_acl.Acl("\n".join([head, "remark = H1", "permit tcp any any eq 135", "permit tcp any any eq 514"]),
+                                                                      platform=platform, version="15.2(02)SY" if platform == "ios" else "9.3", group_by="= ").items[0].items[1]),
     ]
 
 
@@ -277,7 +280,7 @@ def check_ids(arg):
 
 def main(chk):
     t0 = time.time()
-    cases = [(p, i, how) for p in ("ios", "nxos") for i in range(13) for how in ("copy", "data")]
+    cases = [(p, i, how) for p in ("ios", "nxos") for i in range(16) for how in ("copy", "data")]
     res = pmap(check_copy, cases)
     viol = 0
     for fails, _ in res:
